@@ -3,6 +3,7 @@ package props
 import (
 	"context"
 	"crypto/tls"
+	"crypto/x509"
 	"encoding/pem"
 	"fmt"
 	"net"
@@ -38,7 +39,7 @@ var c12Paths = []string{"main", "plugin-brokered", "host-brokered"}
 func init() {
 	Register(&Prop{ID: "C12",
 		Meta: Meta{Level: "fault_enumeration",
-			Rule:       "AutoMTLS host + real plugin (net/rpc, gRPC, gRPC+mux) + an intruder process that reads listener addresses from the kernel's socket table and attacks a connection path {main listener, plugin-side brokered listener, host-side brokered listener} with a credential class {plaintext, TLS without client certificate, TLS with a fresh self-signed certificate, TLS with a certificate carrying the right names but another key, TLS with an own leaf followed by the host certificate read from the environment of the plugin process}, before or after the legitimate peer connects, then attempts a yamux+net/rpc call or gRPC health / PingPong / plugin-service call; for gRPC+mux, where brokered connections are yamux streams of the main connection, an on-path observer parses the yamux framing on the wire and requires every stream to start, in both directions, with a TLS handshake record; and an impostor plugin that announces certificate A in the handshake and serves with certificate B. Matrix path x credential x protocol x timing enumerated, seeded timing and schedule noise on top. Oracle: no intruder call is ever answered, the plugin's served-request counter equals the legitimate host's calls, the legitimate host works or gets an error (never hangs), and against the impostor the first use fails",
+			Rule:       "AutoMTLS host + real plugin (net/rpc, gRPC, gRPC+mux) + an intruder process that reads listener addresses from the kernel's socket table and attacks a connection path {main listener, plugin-side brokered listener, host-side brokered listener} with a credential class {plaintext, TLS without client certificate, TLS with a fresh self-signed certificate, TLS with a certificate carrying the right names but another key, TLS with an own leaf followed by the host certificate read from the environment of the plugin process}, before or after the legitimate peer connects, then attempts a yamux+net/rpc call or gRPC health / PingPong / plugin-service call; for gRPC+mux, where brokered connections are yamux streams of the main connection, an on-path observer parses the yamux framing on the wire and requires every stream to start, in both directions, with a TLS handshake record; and an impostor plugin that announces certificate A in the handshake and serves with certificate B (also against a host that sets AutoMTLS together with a TLSConfig of its own carrying RootCAs or InsecureSkipVerify). Matrix path x credential x protocol x timing enumerated, seeded timing and schedule noise on top. Oracle: no intruder call is ever answered, the plugin's served-request counter equals the legitimate host's calls, the legitimate host works or gets an error (never hangs), and against the impostor the first use fails",
 			Exhaustive: "connection path x credential class x protocol x {before, after the legitimate peer}; impostor x protocol"},
 		Plan: func(tier string, seed uint64, stage int, prev []*h.Result) []*k.Spec {
 			if stage > 0 {
@@ -71,6 +72,13 @@ func init() {
 						cells = append(cells, cp(conf, "path", "main", "cred", cred, "when", "after", "certdamage", dmg))
 					}
 				}
+				for _, ut := range []string{"roots-b", "skipverify"} {
+					for _, im := range []string{"1", "nocert-tls"} {
+						if conf["mux"] != "1" {
+							cells = append(cells, cp(conf, "impostor", im, "usertls", ut))
+						}
+					}
+				}
 				cells = append(cells, cp(conf, "impostor", "1"))
 				cells = append(cells, cp(conf, "impostor", "nocert"))
 				cells = append(cells, cp(conf, "impostor", "shortcert"))
@@ -82,7 +90,7 @@ func init() {
 			}
 			var out []*k.Spec
 			for _, c := range cells {
-				out = append(out, sp("C12", fmt.Sprintf("cell/%s/%s/%s/%s/imp%s%s", confLabel(c), c["path"], c["cred"], c["when"], c["impostor"], c["certdamage"]), seed, c))
+				out = append(out, sp("C12", fmt.Sprintf("cell/%s/%s/%s/%s/imp%s%s", confLabel(c), c["path"], c["cred"], c["when"], c["impostor"], c["certdamage"]+c["usertls"]), seed, c))
 			}
 			n := 300
 			if tier == "thorough" {
@@ -484,6 +492,9 @@ func runC12Impostor(r *h.Run, c h.Conf) {
 		case "nocert":
 			// announces no certificate at all and serves in clear
 			announced, tl = "", ln
+		case "nocert-tls":
+			// announces no certificate and serves TLS with certificate B
+			announced = ""
 		case "shortcert":
 			announced, tl = "legacy-extra-data", ln
 		}
@@ -498,6 +509,22 @@ func runC12Impostor(r *h.Run, c h.Conf) {
 		srv.Serve(tl)
 	})
 	c.Path, c.Name, c.Mux = "/bin/impostor", "plugin", false
+	if ut := r.Spec.P("usertls", ""); ut != "" {
+		// the host sets AutoMTLS AND hands in a TLS configuration of its own
+		// with trust settings: AutoMTLS must still trust nothing but the
+		// certificate that comes back in the handshake
+		ctx += " host-tlsconfig=" + ut
+		c.TweakClient = func(cc *plugin.ClientConfig) {
+			switch ut {
+			case "roots-b":
+				pool := x509.NewCertPool()
+				pool.AppendCertsFromPEM(certB)
+				cc.TLSConfig = &tls.Config{RootCAs: pool, ServerName: "localhost", MinVersion: tls.VersionTLS12}
+			case "skipverify":
+				cc.TLSConfig = &tls.Config{InsecureSkipVerify: true, MinVersion: tls.VersionTLS12}
+			}
+		}
+	}
 	cl := r.NewClient(c)
 	o := r.DoNoHang("Start", 90*time.Second, ctx, func() (any, error) { return cl.Start() })
 	if o.Hung {
